@@ -398,7 +398,9 @@ func (w *world) judge(res *simkit.RunResult, panics []string, sendPanics int) {
 		if class == "canceled" && c.cancelAt == 0 && c.forcedAt == 0 && (w.rootCancelAt == 0 || c.RetAt < w.rootCancelAt) {
 			w.violate("spurious-error", "canceled/"+kindOf(c), fmt.Sprintf("%s failed with context.Canceled although nobody cancelled its context\n%s", c.Tag, c.describe()))
 		}
-		if class == "closed" && (w.firstCloseAt == 0 || c.RetAt < w.firstCloseAt) {
+		// (not judged once a pool may have been recycled as idle: the library then
+		// closes it on its own, and the harness learns about it a moment later)
+		if class == "closed" && (w.firstCloseAt == 0 || c.RetAt < w.firstCloseAt) && c.RetAt < 170*time.Second {
 			w.violate("spurious-error", "closed/"+kindOf(c), fmt.Sprintf("%s failed with a 'closed' error although nothing had been closed yet\n%s", c.Tag, c.describe()))
 		}
 		// (4) not blocked beyond the time-out
@@ -412,7 +414,9 @@ func (w *world) judge(res *simkit.RunResult, panics []string, sendPanics int) {
 			w.violate("blocked-after-close", kindOf(c), fmt.Sprintf("%s was invoked before Close (at %v..%v) and still blocked %v after Close had returned\n%s", c.Tag, w.closeStart, w.closeEnd, slack, c.describe()))
 		}
 		// (6) liveness sanity of the healthy tail
-		if c.Tail && class != "ok" && sc.Cfg.ConcLimit == 0 && !w.clientClosed.Load() || c.Tail && class != "ok" && sc.Cfg.ConcLimit == 0 && w.closeStart > c.RetAt {
+		// ("rpcClient is idle" is excused: a pool unused for 3 minutes is recycled
+		// by design and the first call that meets it is refused)
+		if c.Tail && class != "ok" && class != "idle" && sc.Cfg.ConcLimit == 0 && (!w.clientClosed.Load() || w.closeStart > c.RetAt) {
 			w.violate("healthy-call-failed", strings.SplitN(class, ":", 2)[0]+"/"+kindOf(c), fmt.Sprintf("%s was issued %v after the last fault, with a healthy server and a %dms time-out, and failed: %v\n%s", c.Tag, quiesce, c.Spec.TimeoutMs, c.Err, c.describe()))
 		}
 	}
